@@ -125,6 +125,21 @@ func For[V any](
 	}
 }
 
+// ForPost is a For loop whose post statement is itself a Seq (it may yield):
+// post runs after the body completes normally or by Continue,
+// Break / Return in the body skip it
+func ForPost[V any](cond func() bool, post, body Seq[V]) Seq[V] {
+	return For(cond, nil, func(c *co[V], k cont[V]) {
+		body(c, func(t contType, v V) {
+			if t == kNormal || t == kContinue {
+				post(c, k)
+			} else {
+				k(t, v)
+			}
+		})
+	})
+}
+
 func While[V any](cond func() bool, body Seq[V]) Seq[V] {
 	return For(cond, nil, body)
 }
